@@ -77,9 +77,15 @@ def generate(seed: int, tier: str, phase: str) -> Dict[str, Any]:
     r = core.rng(seed, "workload")
     plan: Dict[str, Any] = {"phase": phase, "timeout": 300, "shrink_budget": 60, "key": r.randrange(1 << 30)}
     if phase == "isolation":
-        plan["ops"] = [{"op": "iso", "fmt": _gen_fmt(r), "shape": [r.choice([1, 3, 8]) for _ in range(r.choice([1, 2, 3]))],
-                        "tseed": r.randrange(1 << 30), "scale": r.choice([1e-3, 1.0, 30.0, 1e4])}
-                       for _ in range(r.choice([1, 2, 3]))]
+        ops_: List[Dict[str, Any]] = []
+        for _ in range(r.choice([1, 2, 3])):
+            f = _gen_fmt(r)
+            if ops_ and r.random() < 0.5 and ops_[-1]["fmt"][2] == "stochastic":
+                p = ops_[-1]["fmt"]  # same (E, M, rounding), another random-bit count
+                f = p[:3] + [r.choice([x for x in (0, 1, 2, 4, 6) if x != p[3]])]
+            ops_.append({"op": "iso", "fmt": f, "shape": [r.choice([1, 3, 8]) for _ in range(r.choice([1, 2, 3]))],
+                         "tseed": r.randrange(1 << 30), "scale": r.choice([1e-3, 1.0, 30.0, 1e4])})
+        plan["ops"] = ops_
         return plan
     lossless = r.random() < 0.25
     fwd = [8, 23, "nearest", 0] if lossless else _gen_fmt(r)
@@ -89,6 +95,13 @@ def generate(seed: int, tier: str, phase: str) -> Dict[str, Any]:
         fwd, bwd = [4, 3, "stochastic", 0], [5, 2, "stochastic", 0]
     plan.update(pseed=r.randrange(1 << 30), fwd=fwd, bwd=bwd, use_fp8=use_fp8,
                 opts={"vocab": "quant", "depth": [1, 12], "avoid": ["shared_qkv"]})
+    # history: other formats with the same (E, M, rounding) but another random-bit count were
+    # used earlier in this process (anything the library caches per format is shared state)
+    pre = []
+    for f in (fwd, bwd):
+        if f[2] == "stochastic" and r.random() < 0.5:
+            pre.append(f[:2] + ["stochastic", r.choice([x for x in (0, 1, 2, 4, 6) if x != f[3]])])
+    plan["pre_formats"] = pre
     if phase == "known":
         if r.random() < 0.5:
             plan["ops"] = [{"op": "nn_root", "kind": r.choice(["linear", "sequential"])}]
@@ -100,7 +113,7 @@ def generate(seed: int, tier: str, phase: str) -> Dict[str, Any]:
         return plan
     ops: List[Dict[str, Any]] = [{"op": "transform"}]
     kinds = ["call", "call", "call", "reset", "bad_call", "neighbour", "transform"]
-    enabled = {k for k in set(kinds) if r.random() < 0.75} | {"call"}
+    enabled = {k for k in sorted(set(kinds)) if r.random() < 0.75} | {"call"}
     kinds = [k for k in kinds if k in enabled]
     ops.append({"op": "call", "j": 0, "k": r.randrange(3), "gseed": r.randrange(4), "bwd": True})
     for _ in range(r.choice([1, 2, 3, 4, 5])):
@@ -112,6 +125,9 @@ def generate(seed: int, tier: str, phase: str) -> Dict[str, Any]:
             op.update(j=r.randrange(8))
         elif k == "neighbour":
             op.update(pseed=r.randrange(1 << 30), fwd=_gen_fmt(r), bwd=_gen_fmt(r))
+            if r.random() < 0.5 and fwd[2] == "stochastic" and bwd[2] == "stochastic":
+                op.update(fwd=fwd[:3] + [r.choice([x for x in (0, 1, 2, 4) if x != fwd[3]])],
+                          bwd=bwd[:3] + [r.choice([x for x in (0, 1, 2, 4) if x != bwd[3]])])
         ops.append(op)
     plan["ops"] = ops
     return plan
@@ -245,6 +261,12 @@ def _programs(plan: Dict[str, Any], res: Dict[str, Any], log: Any, prf: Any, pro
     spec, original, inputs = build(plan["pseed"])
     fwd, bwd = plan["fwd"], plan["bwd"]
     deferred: List[Violation] = []
+    for pf in plan.get("pre_formats", []):
+        t = torch.linspace(-2.0, 2.0, 8).requires_grad_()
+        fo = tw.fmt_obj(pf)
+        torch.autograd.grad(fo.quantise_bwd(fo.quantise_fwd(t)).sum(), t)
+        prf.take_log()
+        probe("earlier_format_same_E_M_other_srbits")
     lossless = fwd[:2] == [8, 23] and bwd[:2] == [8, 23]
     nq = sum(1 for st in spec["prog"] if st["op"] in ("linear", "nn_linear", "u_linear", "uu_linear", "sdpa", "u_sdpa"))
     res["nontrivial"] = nq > 0
